@@ -20,6 +20,7 @@ R5  composite components: every container of sub-components evaluated in calc_va
     gradient use the same coefficient
 R6  layering: atom::apply_force() is called only from the atom-group layer (atom_group::apply_colvar_force,
     group_force_object), which rotates forces back to the laboratory frame and adds the forces on the fitting group
+R9  a quadratic energy and the force terms next to it share the prefactor
 R8  cached group totals: where a function refreshes a per-atom quantity from the engine (atom::update_mass/charge), every
     exit passes through the function that recomputes the group total summed from that quantity (total_mass,
     total_charge; the gradients of the dipole components divide one by the other); functions that adjust one total
@@ -531,6 +532,26 @@ def tmpl_bools(m):
     return [x == "1" for x in re.findall(r"Lb([01])E", m.split("calc_fit_forces_impl", 1)[-1][:24])]
 
 
+def fit_consumers(F, rep, rid, sites_of):
+    """Every consumer of the fit term works under f_ag_fit_gradients and under no other feature: whether the group is
+    fitted on itself or on a separate fitting group only selects WHICH group carries the term (a ?: or a local), it
+    is not a condition for using it.  Shared with C20-R6 (reported atomic gradients)."""
+    allowed = ("f_ag_center", "f_ag_rotate", "f_ag_fit_gradients", "f_ag_scalable", "b_dummy", "noforce")
+    for q, pick in sites_of:
+        f = F.one(q)
+        sites = pick(f)
+        if not sites:
+            raise AnalysisBroken("%s: fit-gradient site not found" % q)
+        for s in sites[:1]:
+            facts, _ = C.guard_facts(f, s, X.const_locals(f))
+            flags = [(t[0], X.re_strip(t[1])) for t in facts if len(t) == 2 and t[0] in ("true", "false")]
+            has = any(p == "true" and "f_ag_fit_gradients" in k for p, k in flags)
+            foreign = [k for p, k in flags if not any(a in k for a in allowed)]
+            rep.add(rid, "fit|%s" % q.split("::")[-1], f.loc(s), "%s uses the fit term under %s" % (q, sorted(set(flags))),
+                    has and not foreign, detail="fit term used although enableFitGradients is off, or withheld under an unrelated flag %s "
+                                                "(a group fitted on itself also carries fit gradients)" % foreign, func=f.q)
+
+
 def r4(F, rep):
     rep.rule("C01-R4", "in the force/gradient layer (apply_colvar_force, group_force_object, calc_fit_forces_impl, "
                        "cvc::collect_gradients) the group's rotation `rot` is applied to a force or gradient only where "
@@ -606,21 +627,9 @@ def r4(F, rep):
     if n < 10:
         raise AnalysisBroken("only %d rotation-use obligations in the force layer" % n)
     # fit gradients / fit forces applied under the right flags
-    allowed = ("f_ag_center", "f_ag_rotate", "f_ag_fit_gradients", "f_ag_scalable", "f_ag_fitting_group", "b_dummy", "noforce")
-    for q, pick in (("colvarmodule::atom_group::apply_colvar_force", lambda f: [x for x in f.walk() if x["k"] == "MemberExpr" and x.get("n") == "fit_gradients"]),
-                    ("colvarmodule::atom_group::group_force_object::apply_force_with_fitting_group", lambda f: [c for c in X.calls(f) if X.callee_name(c) == "calc_fit_forces"]),
-                    ("colvar::cvc::collect_gradients", lambda f: [x for x in f.walk() if x["k"] == "MemberExpr" and x.get("n") == "fit_gradients"])):
-        f = F.one(q)
-        sites = pick(f)
-        if not sites:
-            raise AnalysisBroken("%s: fit-gradient site not found" % q)
-        for s in sites[:1]:
-            facts, _ = C.guard_facts(f, s, X.const_locals(f))
-            flags = [(t[0], X.re_strip(t[1])) for t in facts if len(t) == 2 and t[0] in ("true", "false")]
-            has = any(p == "true" and "f_ag_fit_gradients" in k for p, k in flags)
-            foreign = [k for p, k in flags if not any(a in k for a in allowed)]
-            rep.add("C01-R4", "fit|%s" % q.split("::")[-1], f.loc(s), "%s applies the fit term under %s" % (q, sorted(set(flags))),
-                    has and not foreign, detail="fit forces applied although enableFitGradients is off, or withheld under an unrelated flag %s" % foreign, func=f.q)
+    fit_consumers(F, rep, "C01-R4", (
+        ("colvarmodule::atom_group::apply_colvar_force", lambda f: [x for x in f.walk() if x["k"] == "MemberExpr" and x.get("n") == "fit_gradients"]),
+        ("colvarmodule::atom_group::group_force_object::apply_force_with_fitting_group", lambda f: [c for c in X.calls(f) if X.callee_name(c) == "calc_fit_forces"])))
     # calc_fit_gradients computes under the same flag
     f = F.one("colvarmodule::atom_group::calc_fit_gradients")
     impl = [c for c in X.calls(f) if X.callee_name(c) == "calc_fit_forces_impl"]
@@ -942,7 +951,68 @@ def r8(F, rep):
         raise AnalysisBroken("C01-R8: only %d incremental writers of the group totals found (add_atom, remove_atom expected)" % m)
 
 
+# ------------------------------------------------------------------------------------------------ R9
+def r9(F, rep):
+    rep.rule("C01-R9", "a quadratic energy and its force share the prefactor: where a bias assigns its energy a product that "
+                       "contains the same difference twice (E = c K D*D), every accumulation into a force in the same function "
+                       "whose product contains an element of D also contains every non-literal factor K of the energy "
+                       "(const locals resolved to their initialisers)")
+    n = 0
+    for f in F.funcs.values():
+        if "/src/" not in f.file or f.body is None or not f.cls or not f.cls.startswith("colvarbias"):
+            continue
+        res = X.const_locals(f)
+        for w, t in lvalue_writes(f):
+            if X.key(t, f) != "this.bias_energy" or w.get("op") != "=":
+                continue
+            rhs = X.kids(w)[1] if w["k"] == "BinaryOperator" else X.call_args(w)[1]
+            fk = [X.re_strip(X.key(x, f, res)) for x in product_factors(rhs, f, res)]
+            rep_keys = [k for k in set(fk) if fk.count(k) >= 2 and C._lit_key(k) is None] if hasattr(C, "_lit_key") else [k for k in set(fk) if fk.count(k) >= 2]
+            rep_keys = [k for k in rep_keys if not _is_number(k)]
+            if len(rep_keys) != 1:
+                continue
+            D = rep_keys[0]
+            K = sorted({k for k in fk if k != D and not _is_number(k)})
+            if not K:
+                continue
+            sites = []
+            for w2, t2 in lvalue_writes(f):
+                if w2.get("op") != "+=" or w2 is w:
+                    continue
+                r2 = X.kids(w2)[1] if w2["k"] == "CompoundAssignOperator" else (X.call_args(w2)[1] if len(X.call_args(w2)) > 1 else None)
+                if r2 is None:
+                    continue
+                f2 = [X.re_strip(X.key(x, f, res)) for x in product_factors(r2, f, res)]
+                if any(k == D or k.startswith("op[](" + D) or k.startswith(D + "[") for k in f2):
+                    sites.append((w2, f2))
+            for w2, f2 in sites:
+                n += 1
+                missing = [k for k in K if k not in f2]
+                rep.add("C01-R9", "%s|%s" % (f.q, X.re_strip(X.key(lvalue_writes_target(f, w2), f))[:40]), f.loc(w2),
+                        "%s: the energy is a product of %s and `%s` squared; this force term contains %s" % (
+                            f.q, K, D, "all of those factors" if not missing else "NOT " + str(missing)), not missing,
+                        detail="the force would not be minus the derivative of the energy the bias reports", func=f.q)
+    if n < 2:
+        raise AnalysisBroken("C01-R9: only %d force terms next to a quadratic energy found (histogramRestraint expected)" % n)
+
+
+def _is_number(k):
+    try:
+        float(k.strip("()").replace(" ", ""))
+        return True
+    except ValueError:
+        return False
+
+
+def lvalue_writes_target(f, w):
+    for w2, t in lvalue_writes(f):
+        if w2 is w:
+            return t
+    return w
+
+
 def run(F, rep, tier):
+    r9(F, rep)
     r1(F, rep)
     r2(F, rep)
     r3(F, rep)
